@@ -23,7 +23,7 @@ impl Scenario for Sinks {
         "per case one subject and one boundary-biased value (lengths around multiples of the 16 KiB window for bulk element types), encoded through every sink: encode(), encode_to(Vec with existing content), custom Output with push_byte, custom Output without push_byte, &mut dyn Output, io::Write with short writes and EINTR under 3 drawn schedules, io::Cursor, small BufWriter, using_encoded; encoded_size(); for bulk subjects also the element-wise twin type: same encoding, and the encoding (and a truncation of it) decodes identically as bulk and as twin through the same benign source; every sink / decode is one sub-run; non-trivial = a short write/EINTR fired or more than one sink call or more than one encoded byte"
     }
     fn cases(&self, tier: Tier) -> u64 {
-        tiered(tier, 250_000, 25_000_000)
+        tiered(tier, 800_000, 30_000_000)
     }
     fn gen(&self, seed: u64, idx: u64, _tier: Tier) -> Plan {
         let mut rng = Rng::for_case(seed, "sinks", idx);
